@@ -106,7 +106,7 @@ def run_many(crate_dir, harnesses, flags=(), timeout=1800, jobs=8, playback=Fals
 
 
 PLAYBACK_BLOCK_RX = re.compile(
-    r'/// Check for `(\w+)`: "(.*?)"\s*\n(?:\s*\n)*\s*#\[test\]\s*\n\s*fn (kani_concrete_playback_\w+)\(\) \{(.*?)\n\s*\}\s*\n', re.S)
+    r'/// Check for `(\w+)`: "([^\n]*)"[ \t]*\n(?:[ \t]*///[^\n]*\n|[ \t]*\n)*[ \t]*#\[test\][ \t]*\n[ \t]*fn (kani_concrete_playback_\w+)\(\) \{(.*?)\n[ \t]*\}[ \t]*\n', re.S)
 
 
 def playback_failure(crate_dir, harness, flags=(), timeout=1800):
